@@ -279,7 +279,7 @@ class Expander:
                     q = self.repo.resolve_in_module(func.module, dn)
                     if q is not None:
                         return ("global", q)
-            return mk_attr(X(e.value), e.attr)
+            return mk_attr(X(e.value), e.attr, lambda m, a, func=func: self.method_may_write(func, m, a))
         if isinstance(e, ast.Call):
             fn = X(e.func)
             args = []
@@ -359,6 +359,65 @@ class Expander:
             return self._index(e, func, node, env, d)
         return ("unknown", type(e).__name__)
 
+    # ------------------------------------------------- attribute write sets
+    def method_may_write(self, func: Func, method: str, attr: str) -> bool:
+        """May calling ``self.<method>()`` from ``func`` rebind ``self.<attr>``?"""
+        if func.cls is None:
+            return True
+        ws = self._writes(func.cls.qualname, method, set())
+        return ws is None or attr in ws
+
+    def _writes(self, clsq: str, method: str, active: set):
+        key = (clsq, method)
+        cache = self.__dict__.setdefault("_writes_cache", {})
+        if key in cache:
+            return cache[key]
+        if key in active:
+            return set()
+        active.add(key)
+        c = self.repo.classes.get(clsq)
+        targets = []
+        if c is not None:
+            m = self.repo.find_method(c, method)
+            if m is not None:
+                targets.append(m)
+            for sc in self.repo.subclasses(clsq):
+                if method in sc.methods:
+                    targets.append(sc.methods[method])
+        if not targets:
+            active.discard(key)
+            cache[key] = None  # unknown callee: may write anything
+            return None
+        out: set | None = set()
+        for m in targets:
+            if not m.positional or isinstance(m.node, ast.Lambda):
+                continue
+            selfname = m.positional[0]
+            for n in ast.walk(m.node):
+                tgts = []
+                if isinstance(n, ast.Assign):
+                    tgts = n.targets
+                elif isinstance(n, (ast.AugAssign, ast.AnnAssign)):
+                    tgts = [n.target]
+                for t in tgts:
+                    for leaf in ast.walk(t):
+                        if isinstance(leaf, ast.Attribute) and isinstance(leaf.value, ast.Name) and leaf.value.id == selfname and isinstance(leaf.ctx, ast.Store):
+                            out.add(leaf.attr)
+                if isinstance(n, ast.Call) and isinstance(n.func, ast.Attribute) and isinstance(n.func.value, ast.Name) and n.func.value.id == selfname:
+                    sub = self._writes(m.cls.qualname if m.cls else clsq, n.func.attr, active)
+                    if sub is None:
+                        # calling a stored callable (field), not a method: it cannot rebind self's attributes
+                        if m.cls is not None and self.repo.find_method(m.cls, n.func.attr) is None:
+                            continue
+                        out = None
+                        break
+                    out |= sub
+            if out is None:
+                break
+        active.discard(key)
+        cache[key] = out
+        return out
+
     # ------------------------------------------------------ function values
     def return_term(self, func: Func) -> Term:
         key = (func.qualname, -1)
@@ -391,12 +450,16 @@ _CONTENT_MUTATORS = {
 }
 
 
-def mk_attr(base: Term, name: str) -> Term:
+def mk_attr(base: Term, name: str, may_write=None) -> Term:
     """``base.name`` with flow-sensitive resolution of attribute stores made
-    earlier in the same function (``self.x = v`` ... ``self.x``)."""
+    earlier in the same function (``self.x = v`` ... ``self.x``).  A method
+    call on self is a barrier unless ``may_write(method, name)`` is False."""
     cur = base
     while True:
         k = cur[0]
+        if k == "mut" and cur[2].startswith("call:") and may_write is not None and not may_write(cur[2][5:], name):
+            cur = cur[1]
+            continue
         if k == "setattr":
             if cur[2] == ("root",):
                 if cur[3] == name:
@@ -412,7 +475,7 @@ def mk_attr(base: Term, name: str) -> Term:
             cur = cur[1]
             continue
         if k == "phi":
-            return phi(mk_attr(a, name) for a in cur[1])
+            return phi(mk_attr(a, name, may_write) for a in cur[1])
         break
     return ("attr", cur, name)
 
